@@ -45,6 +45,10 @@ def cases(tier, seed):
     n = 20 if tier == "quick" else 250
     for i in range(n):
         out.append(dict(id="var%04d" % i, kind="eig", case=cs[i % len(cs)], op=i, zero=(i % 3 != 0)))
+    # histories on one System: EIG.run, then parameter alterations / EIG.sweep, then EIG.run again ...
+    n = 12 if tier == "quick" else 150
+    for i in range(n):
+        out.append(dict(id="seq%04d" % i, kind="seq", case=cs[(i * 7) % len(cs)], op=5000 + i, zero=(i % 2 == 0), sweep=(i % 3 == 0)))
     return out
 
 
@@ -98,8 +102,12 @@ def prepare(spec, rng, sd):
         else:
             desc.append("as shipped")
     zeroed = []
+    ss._vf_zeroed = []
     if spec["zero"]:
         avail = [(m, p) for m, p in ZEROABLE if getattr(ss, m).n > 0]
+        if spec.get("kind") == "seq":
+            # histories start from a system that does have states with zero time constant (lead constants make none)
+            avail = [(m, p) for m, p in avail if (m, p) not in (("EXDC2", "TC"), ("TGOV1", "T2"))]
         rng.shuffle(avail)
         for m, p in avail[: int(rng.integers(1, 4))]:
             M = getattr(ss, m)
@@ -108,6 +116,7 @@ def prepare(spec, rng, sd):
                 which = list(range(M.n))
             M.alter(p, M.idx.v[which] if isinstance(which, int) else M.idx.v, 0.0)
             zeroed.append("%s.%s[%s]" % (m, p, which))
+            ss._vf_zeroed.append((m, p, M.idx.v[which] if isinstance(which, int) else list(M.idx.v)))
     if not ss.PFlow.run():
         return ss, desc, zeroed, "pf"
     ss.TDS.config.no_tqdm = 1
@@ -115,6 +124,282 @@ def prepare(spec, rng, sd):
     if ss.TDS.test_ok is False or ss.dae.n == 0:
         return ss, desc, zeroed, "init"
     return ss, desc, zeroed, "ok"
+
+
+def check_eig(res, ss, tag, zeroed, mu_given=None, refresh=False):
+    """Compare what EIG holds (or ``mu_given``: eigenvalues returned by a sweep round) with the independent oracles computed
+    from the DAE matrices.  ``refresh``: the oracle re-evaluates residuals and Jacobians at the current point with the
+    current parameter values first (EIG's results were copied before), so that it does not inherit stale matrices."""
+    from scipy.linalg import eig as geig
+    light = mu_given is not None
+    held = dict(mu=np.array(ss.EIG.mu).ravel().copy() if not light else np.array(mu_given).ravel().copy())
+    if not light:
+        held.update(As=np.array(ss.EIG.As).copy(), pf=np.array(ss.EIG.pfactors).copy(), names=list(ss.EIG.x_name),
+                    counts=(int(ss.EIG.n_positive), int(ss.EIG.n_zeros), int(ss.EIG.n_negative)))
+    if refresh:
+        ss.TDS.fg_update(ss.exist.pflow_tds)
+        ss.j_update(ss.exist.pflow_tds)
+        res.count("oracle_refreshed_matrices")
+    dae = ss.dae
+    fx, fy, gx, gy = dense(dae.fx), dense(dae.fy), dense(dae.gx), dense(dae.gy)
+    Tf = np.array(dae.Tf, dtype=float)
+    if refresh:
+        # time constants as the models hold them now
+        Tf = np.ones(dae.n)
+        for mdl in ss.exist.pflow_tds.values():
+            for var in mdl.cache.states_and_ext.values():
+                if var.t_const is not None and len(np.atleast_1d(var.a)):
+                    Tf[np.atleast_1d(var.a).astype(int)] = np.asarray(var.t_const.v, dtype=float)
+        if not np.array_equal(Tf, np.array(dae.Tf, dtype=float)):
+            res.violate("time_constants_stale", "%s: dae.Tf differs from the time constants the models hold" % tag, zeroed=zeroed)
+    n, m = dae.n, dae.m
+    nz = int(np.sum(Tf != 0))
+    if nz != n:
+        res.count("zero_time_constant_cases")
+    # ---- oracle 1: finite generalised eigenvalues of (A, E)
+    A = np.block([[fx, fy], [gx, gy]])
+    E = np.zeros((n + m, n + m))
+    E[np.arange(n), np.arange(n)] = Tf
+    al, be = geig(A, E, right=False, homogeneous_eigvals=True)
+    scale = np.abs(al) + np.abs(be)
+    fin = np.abs(be) > 1e-9 * scale
+    lam = (al[fin] / be[fin])
+    mu = held["mu"]
+    # ---- oracle 2: own Schur complement (states with T = 0 moved to the algebraic side)
+    sidx = np.where(Tf != 0)[0]
+    zidx = np.where(Tf == 0)[0]
+    F = fx - fy @ np.linalg.solve(gy, gx)            # d(T xdot)/dx with y eliminated
+    if len(zidx):
+        Fss, Fsz, Fzs, Fzz = F[np.ix_(sidx, sidx)], F[np.ix_(sidx, zidx)], F[np.ix_(zidx, sidx)], F[np.ix_(zidx, zidx)]
+        if np.linalg.matrix_rank(Fzz) < len(zidx):
+            # the property is stated for systems with a non-singular algebraic block (zero-T states included)
+            res.count("out_of_scope_singular_algebraic_block")
+            res.sig = tag
+            return None
+        Ared = Fss - Fsz @ np.linalg.solve(Fzz, Fzs)
+    else:
+        Ared = F
+    As_own = Ared / Tf[sidx][:, None]
+    lam2 = np.linalg.eigvals(As_own)
+    cross, _ = match(lam, lam2) if len(lam) == len(lam2) else (float("inf"), None)
+    if len(lam) != nz or cross > 1e-5:
+        res.inconc("the two independent oracles disagree (%d finite generalised eigenvalues, %d states with T != 0, distance %.2e)" % (
+            len(lam), nz, cross))
+        return None
+    if len(mu) != nz:
+        res.violate("mode_count", "%s: %d eigenvalues reported, the DAE has %d finite modes (%d states, %d zero time constants)" % (
+            tag, len(mu), nz, n, n - nz), zeroed=zeroed, n_zero=n - nz)
+    else:
+        d, perm = match(mu, lam2)
+        res.count("modes_matched", len(mu))
+        res.maxobs("max_mode_distance", d)
+        if d > 1e-6:
+            worst = np.abs(mu - lam2[perm]) / (1 + np.abs(lam2[perm]))
+            j = int(np.argmax(worst))
+            res.violate("eigenvalues_zero_time_constant" if (n - nz) > 0 else "eigenvalues_wrong",
+                        "%s: reported eigenvalue %s has no counterpart in the spectrum of the linearised DAE (nearest %s; max Re reported "
+                        "%.4g, true %.4g)" % (tag, mu[j], lam2[perm][j], mu.real.max(), lam2.real.max()), zeroed=zeroed, n_zero=n - nz)
+    if light:
+        return True
+    # state matrix
+    As = held["As"]
+    if As.shape == As_own.shape:
+        da = float(np.max(np.abs(As - As_own)) / (1 + np.max(np.abs(As_own))))
+        res.maxobs("max_state_matrix_rel_difference", da)
+        if da > 1e-8:
+            res.violate("state_matrix_zero_time_constant" if (n - nz) > 0 else "state_matrix",
+                        "%s: EIG.As differs from T^-1(fx - fy gy^-1 gx) by %.3e (relative)" % (tag, da), zeroed=zeroed, n_zero=n - nz)
+    elif not res.violations:
+        res.violate("state_matrix_shape", "%s: EIG.As has shape %s, expected %s" % (tag, As.shape, As_own.shape), zeroed=zeroed, n_zero=n - nz)
+    # counts partition the spectrum
+    tol = float(ss.EIG.config.tol)
+    npos, nzer, nneg = held["counts"]
+    res.count("count_checks")
+    if npos + nzer + nneg != len(mu):
+        res.violate("counts_do_not_partition", "%s: positive+zero+negative = %d+%d+%d != %d eigenvalues" % (tag, npos, nzer, nneg, len(mu)))
+    own = (int(np.sum(mu.real > tol)), int(np.sum(np.abs(mu.real) <= tol)), int(np.sum(mu.real < -tol)))
+    if (npos, nzer, nneg) != own and npos + nzer + nneg == len(mu):
+        res.violate("counts_wrong", "%s: counts %s, own count with tol=%g: %s" % (tag, (npos, nzer, nneg), tol, own))
+    # participation factors
+    P = held["pf"]      # rows: modes, columns: states
+    if P.shape == (len(mu), len(mu)) and not res.violations:
+        res.count("participation_columns_checked", len(mu))
+        if P.min() < 0:
+            res.violate("participation_negative", "%s: negative participation factor %r" % (tag, float(P.min())))
+        s = P.sum(axis=1)
+        if np.max(np.abs(s - 1)) > len(mu) * 1e-5 + 1e-9:
+            res.violate("participation_sum", "%s: participation factors of a mode sum to %r" % (tag, float(s[np.argmax(np.abs(s - 1))])))
+        mu_o, P_o = own_participation(held["As"])
+        d2, perm2 = match(mu, mu_o)
+        names = held["names"]
+        # report
+        rep = ss.files.eig
+        assoc = {}
+        if os.path.isfile(rep):
+            for line in open(rep):
+                mm = re.match(r"^#(\d+)\s+(.*?)\s+(-?[\d.eE+-]+)\s+(-?[\d.eE+-]+)\s+\S+\s+\S+\s+\S+\s*$", line)
+                if mm:
+                    assoc[int(mm.group(1)) - 1] = mm.group(2).strip()
+            res.count("reports_parsed")
+        sx = [names[i] for i in range(len(names))]
+        want_names = np.array(dae.x_name)[sidx]
+        if list(sx) != list(want_names):
+            res.violate("state_names_zero_time_constant" if (n - nz) > 0 else "state_names",
+                        "%s: EIG.x_name does not list the states with non-zero time constant in order" % tag, zeroed=zeroed, n_zero=n - nz)
+        elif d2 < 1e-6:
+            for k in range(len(mu)):
+                col = P_o[:, perm2[k]]
+                srt = np.sort(col)
+                if srt[-1] - srt[-2] < 1e-3:
+                    res.count("ambiguous_modes_skipped")
+                    continue
+                top = want_names[int(np.argmax(col))]
+                if k in assoc:
+                    res.count("most_associated_checked")
+                    if assoc[k] != top:
+                        res.violate("most_associated", "%s: mode #%d (%s) is reported as most associated with %r; own participation factors "
+                                    "give %r" % (tag, k + 1, mu[k], assoc[k], top))
+                        break
+    return True
+
+
+GAINS = [("EXDC2", "KA"), ("EXDC2", "KE"), ("TGOV1", "R"), ("TGOV1", "Dt"), ("EXST1", "KA"), ("SEXS", "K"), ("IEEEG1", "K"), ("ESST3A", "KA"),
+         ("GENROU", "D"), ("GENCLS", "D"), ("IEEEST", "KS"), ("ST2CUT", "K1"), ("EXAC1", "KA"), ("HYGOV", "R")]
+TCONST = [("GENROU", "M"), ("GENCLS", "M"), ("EXDC2", "TA"), ("EXDC2", "TE"), ("TGOV1", "T1"), ("TGOV1", "T3"), ("GENROU", "Td10"),
+          ("EXST1", "TA"), ("SEXS", "TA"), ("IEEEG1", "T4"), ("EXAC1", "TA")]
+
+
+def own_spectrum(ss):
+    """Finite modes from the DAE matrices re-evaluated at the point the system is at (time constants read from the models)."""
+    ss.TDS.fg_update(ss.exist.pflow_tds)
+    ss.j_update(ss.exist.pflow_tds)
+    dae = ss.dae
+    fx, fy, gx, gy = dense(dae.fx), dense(dae.fy), dense(dae.gx), dense(dae.gy)
+    Tf = np.ones(dae.n)
+    for mdl in ss.exist.pflow_tds.values():
+        for var in mdl.cache.states_and_ext.values():
+            if var.t_const is not None and len(np.atleast_1d(var.a)):
+                Tf[np.atleast_1d(var.a).astype(int)] = np.asarray(var.t_const.v, dtype=float)
+    sidx, zidx = np.where(Tf != 0)[0], np.where(Tf == 0)[0]
+    F = fx - fy @ np.linalg.solve(gy, gx)
+    if len(zidx):
+        Fzz = F[np.ix_(zidx, zidx)]
+        if np.linalg.matrix_rank(Fzz) < len(zidx):
+            return None
+        F = F[np.ix_(sidx, sidx)] - F[np.ix_(sidx, zidx)] @ np.linalg.solve(Fzz, F[np.ix_(zidx, sidx)])
+    return np.linalg.eigvals(F / Tf[sidx][:, None])
+
+
+def run_sequence(res, ss, spec, rng, tag, sd):
+    """EIG has run once on ``ss``.  Now: parameter changes through the public calls, each followed by another analysis."""
+    nops = int(rng.integers(1, 4))
+    for step in range(nops):
+        kinds = ["restore_T", "zero_more", "gain", "undamp", "sweep"] if step == 0 else ["restore_T", "zero_more", "gain", "undamp"]
+        kind = kinds[int(rng.integers(0, len(kinds)))]
+        if step == 0 and spec.get("sweep"):
+            kind = "sweep"
+        elif step == 0 and ss._vf_zeroed and rng.random() < 0.6:
+            kind = "restore_T"
+        if kind == "restore_T" and not ss._vf_zeroed:
+            kind = "gain"
+        stag = "%s | step %d: " % (tag, step + 1)
+        if kind == "sweep":
+            pool = [(m, p) for m, p in GAINS + TCONST if getattr(ss, m).n > 0]
+            if not pool:
+                continue
+            m, p = pool[int(rng.integers(0, len(pool)))]
+            M = getattr(ss, m)
+            dev = M.idx.v[int(rng.integers(0, M.n))]
+            v0 = float(M.params[p].v[M.idx2uid(dev)])
+            vals = [float(v0 * f) if v0 != 0 else float(f) for f in (0.6, 1.0, 1.7)]
+            is_t = (m, p) in TCONST
+            try:
+                ret = ss.EIG.sweep(M.params[p], dev, np.array(vals))
+            except Exception as e:
+                res.violate("sweep_raises", "%sEIG.sweep(%s.%s, %r, %s) raised %r" % (stag, m, p, dev, vals, e))
+                return
+            res.count("sweeps")
+            # reference: an identically prepared system that has had the value from the start
+            for k, val in enumerate(vals):
+                ss2, _, _, status = prepare(spec, rng_for(spec.get("seed", 0), PROPERTY, spec["op"] + 1), sd)
+                if status != "ok":
+                    res.inconc("reference system for the sweep could not be prepared (%s)" % status)
+                    return
+                ss2.TDS.initialized = False
+                M2 = getattr(ss2, m)
+                M2.params[p].v[M2.idx2uid(dev)] = val
+                ss2.dae.x[:] = 0
+                ss2.dae.y[:] = 0
+                ss2.TDS.init()
+                if ss2.TDS.test_ok is False:
+                    res.count("sweep_reference_init_failed")
+                    continue
+                lam = own_spectrum(ss2)
+                mu = np.array(ret[k]["mu"]).ravel()
+                if lam is None:
+                    continue
+                res.count("sweep_rounds_checked")
+                res.count("sweep_rounds_time_constant" if is_t else "sweep_rounds_gain")
+                if len(mu) != len(lam):
+                    res.violate("sweep_mode_count", "%ssweep of %s.%s[%r]=%g reports %d eigenvalues, the DAE has %d finite modes" % (
+                        stag, m, p, dev, val, len(mu), len(lam)))
+                    return
+                d, _ = match(mu, lam)
+                res.maxobs("max_sweep_mode_distance", d)
+                if d > 1e-5:
+                    res.violate("sweep_time_constant_wrong" if is_t else "sweep_eigenvalues_wrong",
+                                "%ssweep of %s.%s[%r] round %d (value %g): reported spectrum differs from the modes of the system "
+                                "holding that value by %.3e (relative)" % (stag, m, p, dev, k, val, d), param="%s.%s" % (m, p))
+                    return
+            return      # the sweep leaves the system at its last value; nothing further in this history
+        desc = None
+        if kind == "restore_T":
+            for m, p, idxs in ss._vf_zeroed:
+                M = getattr(ss, m)
+                M.alter(p, idxs, float(np.round(rng.uniform(0.02, 0.5), 3)))
+            desc = "time constants %s set back to non-zero values" % [(m, p) for m, p, _ in ss._vf_zeroed]
+            ss._vf_zeroed = []
+        elif kind == "zero_more":
+            avail = [(m, p) for m, p in ZEROABLE if getattr(ss, m).n > 0 and not any(z[0] == m and z[1] == p for z in ss._vf_zeroed)]
+            if not avail:
+                continue
+            m, p = avail[int(rng.integers(0, len(avail)))]
+            M = getattr(ss, m)
+            dev = M.idx.v[int(rng.integers(0, M.n))]
+            M.alter(p, dev, 0.0)
+            ss._vf_zeroed.append((m, p, dev))
+            desc = "%s.%s[%r] := 0" % (m, p, dev)
+        elif kind == "gain":
+            pool = [(m, p) for m, p in GAINS if getattr(ss, m).n > 0]
+            if not pool:
+                continue
+            m, p = pool[int(rng.integers(0, len(pool)))]
+            M = getattr(ss, m)
+            dev = M.idx.v[int(rng.integers(0, M.n))]
+            old = float(M.params[p].vin[M.idx2uid(dev)])
+            new = old * float(rng.uniform(0.5, 1.6)) if old != 0 else float(rng.uniform(0.5, 2.0))
+            M.alter(p, dev, new)
+            desc = "%s.%s[%r]: %g -> %g" % (m, p, dev, old, new)
+        elif kind == "undamp":
+            done = []
+            for m in ("GENCLS", "GENROU"):
+                M = getattr(ss, m)
+                if M.n:
+                    M.alter("D", list(M.idx.v), 0.0)
+                    done.append(m)
+            desc = "D := 0 for all %s" % done
+        res.count("sequence_steps")
+        res.count("sequence_" + kind)
+        try:
+            ok = ss.EIG.run()
+        except Exception as e:
+            res.violate("eig_raises", "%s%s; EIG.run() raised %r" % (stag, desc, e))
+            return
+        if not ok:
+            res.count("sequence_eig_returned_false")
+            return
+        if check_eig(res, ss, stag + desc, [z[:2] for z in ss._vf_zeroed], refresh=True) is None or res.violations:
+            return
 
 
 def run_case(spec):
@@ -141,115 +426,14 @@ def run_case(spec):
         if not ok:
             res.inconc("EIG.run() returned False")
             return res
-        dae = ss.dae
-        fx, fy, gx, gy = dense(dae.fx), dense(dae.fy), dense(dae.gx), dense(dae.gy)
-        Tf = np.array(dae.Tf, dtype=float)
-        n, m = dae.n, dae.m
-        nz = int(np.sum(Tf != 0))
-        if nz != n:
-            res.count("zero_time_constant_cases")
-        # ---- oracle 1: finite generalised eigenvalues of (A, E)
-        A = np.block([[fx, fy], [gx, gy]])
-        E = np.zeros((n + m, n + m))
-        E[np.arange(n), np.arange(n)] = Tf
-        al, be = geig(A, E, right=False, homogeneous_eigvals=True)
-        scale = np.abs(al) + np.abs(be)
-        fin = np.abs(be) > 1e-9 * scale
-        lam = (al[fin] / be[fin])
-        mu = np.array(ss.EIG.mu).ravel()
-        # ---- oracle 2: own Schur complement (states with T = 0 moved to the algebraic side)
-        sidx = np.where(Tf != 0)[0]
-        zidx = np.where(Tf == 0)[0]
-        F = fx - fy @ np.linalg.solve(gy, gx)            # d(T xdot)/dx with y eliminated
-        if len(zidx):
-            Fss, Fsz, Fzs, Fzz = F[np.ix_(sidx, sidx)], F[np.ix_(sidx, zidx)], F[np.ix_(zidx, sidx)], F[np.ix_(zidx, zidx)]
-            if np.linalg.matrix_rank(Fzz) < len(zidx):
-                # the property is stated for systems with a non-singular algebraic block (zero-T states included)
-                res.count("out_of_scope_singular_algebraic_block")
-                res.sig = tag
-                return res
-            Ared = Fss - Fsz @ np.linalg.solve(Fzz, Fzs)
-        else:
-            Ared = F
-        As_own = Ared / Tf[sidx][:, None]
-        lam2 = np.linalg.eigvals(As_own)
-        cross, _ = match(lam, lam2) if len(lam) == len(lam2) else (float("inf"), None)
-        if len(lam) != nz or cross > 1e-5:
-            res.inconc("the two independent oracles disagree (%d finite generalised eigenvalues, %d states with T != 0, distance %.2e)" % (
-                len(lam), nz, cross))
+        if check_eig(res, ss, tag, zeroed) is None:
+            res.sig = tag
             return res
-        if len(mu) != nz:
-            res.violate("mode_count", "%s: %d eigenvalues reported, the DAE has %d finite modes (%d states, %d zero time constants)" % (
-                tag, len(mu), nz, n, n - nz), zeroed=zeroed, n_zero=n - nz)
-        else:
-            d, perm = match(mu, lam2)
-            res.count("modes_matched", len(mu))
-            res.maxobs("max_mode_distance", d)
-            if d > 1e-6:
-                worst = np.abs(mu - lam2[perm]) / (1 + np.abs(lam2[perm]))
-                j = int(np.argmax(worst))
-                res.violate("eigenvalues_zero_time_constant" if (n - nz) > 0 else "eigenvalues_wrong",
-                            "%s: reported eigenvalue %s has no counterpart in the spectrum of the linearised DAE (nearest %s; max Re reported "
-                            "%.4g, true %.4g)" % (tag, mu[j], lam2[perm][j], mu.real.max(), lam2.real.max()), zeroed=zeroed, n_zero=n - nz)
-        # state matrix
-        As = np.array(ss.EIG.As)
-        if As.shape == As_own.shape:
-            da = float(np.max(np.abs(As - As_own)) / (1 + np.max(np.abs(As_own))))
-            res.maxobs("max_state_matrix_rel_difference", da)
-            if da > 1e-8:
-                res.violate("state_matrix_zero_time_constant" if (n - nz) > 0 else "state_matrix",
-                            "%s: EIG.As differs from T^-1(fx - fy gy^-1 gx) by %.3e (relative)" % (tag, da), zeroed=zeroed, n_zero=n - nz)
-        elif not res.violations:
-            res.violate("state_matrix_shape", "%s: EIG.As has shape %s, expected %s" % (tag, As.shape, As_own.shape), zeroed=zeroed, n_zero=n - nz)
-        # counts partition the spectrum
-        tol = float(ss.EIG.config.tol)
+        n, nz = ss.dae.n, int(np.sum(np.array(ss.dae.Tf) != 0))
+        mu = np.array(ss.EIG.mu).ravel()
         npos, nzer, nneg = int(ss.EIG.n_positive), int(ss.EIG.n_zeros), int(ss.EIG.n_negative)
-        res.count("count_checks")
-        if npos + nzer + nneg != len(mu):
-            res.violate("counts_do_not_partition", "%s: positive+zero+negative = %d+%d+%d != %d eigenvalues" % (tag, npos, nzer, nneg, len(mu)))
-        own = (int(np.sum(mu.real > tol)), int(np.sum(np.abs(mu.real) <= tol)), int(np.sum(mu.real < -tol)))
-        if (npos, nzer, nneg) != own and npos + nzer + nneg == len(mu):
-            res.violate("counts_wrong", "%s: counts %s, own count with tol=%g: %s" % (tag, (npos, nzer, nneg), tol, own))
-        # participation factors
-        P = np.array(ss.EIG.pfactors)      # rows: modes, columns: states
-        if P.shape == (len(mu), len(mu)) and not res.violations:
-            res.count("participation_columns_checked", len(mu))
-            if P.min() < 0:
-                res.violate("participation_negative", "%s: negative participation factor %r" % (tag, float(P.min())))
-            s = P.sum(axis=1)
-            if np.max(np.abs(s - 1)) > len(mu) * 1e-5 + 1e-9:
-                res.violate("participation_sum", "%s: participation factors of a mode sum to %r" % (tag, float(s[np.argmax(np.abs(s - 1))])))
-            mu_o, P_o = own_participation(np.array(ss.EIG.As))
-            d2, perm2 = match(mu, mu_o)
-            names = list(ss.EIG.x_name)
-            # report
-            rep = ss.files.eig
-            assoc = {}
-            if os.path.isfile(rep):
-                for line in open(rep):
-                    mm = re.match(r"^#(\d+)\s+(.*?)\s+(-?[\d.eE+-]+)\s+(-?[\d.eE+-]+)\s+\S+\s+\S+\s+\S+\s*$", line)
-                    if mm:
-                        assoc[int(mm.group(1)) - 1] = mm.group(2).strip()
-                res.count("reports_parsed")
-            sx = [names[i] for i in range(len(names))]
-            want_names = np.array(dae.x_name)[sidx]
-            if list(sx) != list(want_names):
-                res.violate("state_names_zero_time_constant" if (n - nz) > 0 else "state_names",
-                            "%s: EIG.x_name does not list the states with non-zero time constant in order" % tag, zeroed=zeroed, n_zero=n - nz)
-            elif d2 < 1e-6:
-                for k in range(len(mu)):
-                    col = P_o[:, perm2[k]]
-                    srt = np.sort(col)
-                    if srt[-1] - srt[-2] < 1e-3:
-                        res.count("ambiguous_modes_skipped")
-                        continue
-                    top = want_names[int(np.argmax(col))]
-                    if k in assoc:
-                        res.count("most_associated_checked")
-                        if assoc[k] != top:
-                            res.violate("most_associated", "%s: mode #%d (%s) is reported as most associated with %r; own participation factors "
-                                        "give %r" % (tag, k + 1, mu[k], assoc[k], top))
-                            break
+        if spec["kind"] == "seq" and not res.violations:
+            run_sequence(res, ss, spec, rng, tag, sd)
         res.sig = tag
         res.nontrivial = res.obs.get("modes_matched", 0) >= 10
         res.sample = dict(case=spec["case"], operating_point=desc, zeroed=zeroed, states=n, zero_T=n - nz, modes=len(mu),
